@@ -82,6 +82,15 @@ func graphFamily(th bool) []*pg.Program {
 			ps = append(ps, flowProg(g, "L:"+n))
 		}
 	}
+	for _, n := range []string{"chain2", "chain3", "join", "diamond", "multi", "dup3", "invoke"} {
+		f := pg.Shape(n)
+		f.Conc = "2"
+		for _, o := range pg.TaskOrders(f) {
+			g := f.Clone()
+			g.Order = o
+			ps = append(ps, flowProg(g, "LT:"+n))
+		}
+	}
 	return ps
 }
 
@@ -174,6 +183,9 @@ func asgFamily() []*pg.Program {
 	return ps
 }
 
+// genLocalNames are identifiers the generated code declares itself.
+var genLocalNames = []string{"ctx", "err", "sched", "emitter", "tasks", "task0", "task1", "v1", "v2", "p0", "pred1", "flowInfo", "flowEmitter", "schedInfo", "schedEmitter", "startTime", "parallelInfo", "directiveInfo", "parallelEmitter", "sliceTask0Slice", "sliceTask0Jobs", "mapTask0Jobs", "key", "val", "idx", "recovered", "stacktrace", "taskEmitter", "t"}
+
 // specialFamily: spelling and context features, and hand-written corner cases.
 func specialFamily() []*pg.Program {
 	var ps []*pg.Program
@@ -230,6 +242,22 @@ func specialFamily() []*pg.Program {
 				p.F.CffAlias = "c"
 			}
 		})
+	}
+	// directive arguments that are bare identifiers named like locals of the generated code
+	for _, nm := range genLocalNames {
+		nm := nm
+		for _, pos := range []int{0, -1} {
+			pos := pos
+			feat(fmt.Sprintf("identarg=%s@%d", nm, pos), func(p *pg.Program) {
+				p.F.IdentArg, p.F.IdentPos = nm, pos
+				if p.Par != nil {
+					p.Par.Conc = "expr"
+				}
+				if p.Flow != nil {
+					p.Flow.Conc = "expr"
+				}
+			})
+		}
 	}
 	for _, sp := range []string{pg.SpPtr, pg.SpBasic, pg.SpSlice, pg.SpMap, pg.SpGeneric, pg.SpExt} {
 		f := pg.Shape("multi")
